@@ -7,7 +7,9 @@ DW_AT_stmt_list, and the string sections the v5 tables refer to - all bytes comp
 specification.  The driver hands the blobs to DWARFInfo, walks iter_CUs(), calls
 line_program_for_CU(cu) and compares, with the spec's expectations: header scalars, directory /
 file tables (legacy and v5 forms), program extent, and the sequence of entries with non-None state
-field by field.  Expected values are never computed here; Python only concretises and compares."""
+field by field.  Expected values are never computed here; Python only concretises and compares.
+T (no hook): the public rows of the corpus line programs are validated by TLC against the spec's byte
+machine re-run over the raw program bytes (spec/trace/LineProgramTrace.tla)."""
 import io
 
 from . import core
@@ -94,9 +96,13 @@ def _check_tables(bad, u, lp, after):
     # the legacy-compatible tables the API documents for v5 programs
     exp_dirs = [dict((c, _val(v)) for c, v in e) for e in t['dirs']]
     bad('tables.include_directory', [e[1] for e in exp_dirs], [_obs(d) for d in hd['include_directory']])
+    # name/dir_index/mtime/length mirror path/directory_index/timestamp/size; what a format does not
+    # encode has no prescribed value and is not compared
     exp_files = [dict((c, _val(v)) for c, v in e) for e in t['files']]
-    bad('tables.file_entry', [[e.get(1), e.get(2), e.get(3), e.get(4)] for e in exp_files],
-        [[_obs(f.name), f.dir_index, _obs(f.mtime), f.length] for f in hd['file_entry']])
+    have = [c for c, _f in t['ffmt']]
+    bad('tables.file_entry', [[e.get(c) for c in (1, 2, 3, 4) if c in have] for e in exp_files],
+        [[_obs(x) for c, x in ((1, f.name), (2, f.dir_index), (3, f.mtime), (4, f.length)) if c in have]
+         for f in hd['file_entry']])
 
 
 def _check_header(bad, u, lp):
@@ -208,6 +214,89 @@ def _replay(run, case, n):
             _check_rows(run, brief, tag, u, again)
 
 
+def _corpus(run, quick):
+    """T without a hook: the public rows of every corpus line program against the specification's byte
+    machine re-run by TLC over the raw program bytes (spec/trace/LineProgramTrace.tla)."""
+    import glob
+    import os
+    from elftools.elf.elffile import ELFFile
+    events = []
+    budget = 60000 if quick else 10 ** 9          # program bytes
+    per_file = 12000 if quick else 10 ** 9
+    nfiles = 0
+    unused = []
+    for fn in sorted(glob.glob(os.path.join(core.REPO, 'test', 'testfiles_for_unittests', '*'))):
+        base = os.path.basename(fn)
+        try:
+            with open(fn, 'rb') as f:
+                ef = ELFFile(f)
+                if not ef.has_dwarf_info():
+                    continue
+                dw = ef.get_dwarf_info()
+                if dw.debug_line_sec is None:
+                    continue
+                seen = set()
+                used = 0
+                nfiles += 1
+                for cu in dw.iter_CUs():
+                    lp = dw.line_program_for_CU(cu)
+                    if lp is None or lp.program_start_offset in seen:
+                        continue
+                    seen.add(lp.program_start_offset)
+                    n = lp.program_end_offset - lp.program_start_offset
+                    if n <= 0 or used + n > per_file or budget - n < 0:
+                        continue
+                    hd = lp.header
+                    ident = '%s@%d' % (base, lp.program_start_offset)
+                    try:
+                        rows = [e.state for e in lp.get_entries() if e.state is not None]
+                    except Exception as ex:
+                        run.mismatch('decode', 'corpus', {'program': ident}, 'rows', 'exc:%s:%s' % (type(ex).__name__, ex))
+                        continue
+                    if any(not 0 <= s.address < 2 ** 64 for s in rows):
+                        continue
+                    st = dw.debug_line_sec.stream
+                    st.seek(lp.program_start_offset)
+                    raw = st.read(n)
+                    used += n
+                    budget -= n
+                    events.append({
+                        'id': ident, 'n': n, 'bytes': list(raw) + [0] * 16,
+                        'hdr': {'v': hd['version'], 'le': bool(dw.config.little_endian), 'ob': hd['opcode_base'],
+                                'lb': hd['line_base'], 'lr': hd['line_range'], 'mi': hd['minimum_instruction_length'],
+                                'mo': hd['maximum_operations_per_instruction'], 'dis': bool(hd['default_is_stmt']),
+                                'lens': list(hd['standard_opcode_lengths'])},
+                        'rows': [[list(s.address.to_bytes(8, 'little')), s.op_index, s.file, s.line, s.column,
+                                  bool(s.is_stmt), bool(s.basic_block), bool(s.end_sequence), bool(s.prologue_end),
+                                  bool(s.epilogue_begin), s.isa, s.discriminator] for s in rows]})
+        except Exception as ex:
+            unused.append('%s:%s' % (base, type(ex).__name__))
+    if not events:
+        run.notes.append('T: no corpus line programs found')
+        return
+    trace = run.trace_file('lineprograms', events)
+    res = run.tlc('trace/LineProgramTrace', 'LineProgramTrace', env={'TRACE': trace, 'JAVA_TOOL_OPTIONS': '-Xss32m'},
+                  workers=1, timeout=3000)
+    reports = list(run.cases(res.out))
+    if 'Error:' in res.stdout:
+        raise core.MachineryError('TLC reported an error on LineProgramTrace\n%s' % res.stdout[res.stdout.index('Error:'):][:1500])
+    if len(reports) != 1:
+        raise core.MachineryError('LineProgramTrace: %d reports' % len(reports))
+    rep = reports[0]
+    st = rep['stats']
+    if st['progs'] + len(st['skipped']) != len(events):
+        raise core.MachineryError('LineProgramTrace consumed %d+%d of %d programs' % (st['progs'], len(st['skipped']), len(events)))
+    bad = rep['bad'] if isinstance(rep['bad'], dict) else {}
+    for key, v in sorted(bad.items()):
+        clause, tag = ('rows.is_stmt', 'end_sequence') if key == 'is_stmt@end_sequence' else \
+            (('rows.count', 'corpus') if key == 'rows.count' else ('rows.' + key, 'corpus'))
+        for _ in range(v['n']):
+            run.mismatch(clause, tag, v['ex'][0], v['ex'][0]['expected'], v['ex'][0]['observed'])
+    run.validated += st['progs']
+    run.extra['corpus'] = {'files': nfiles, 'files_not_usable': len(unused), 'programs_validated': st['progs'], 'instructions': st['ins'], 'rows': st['rows'],
+                           'skipped': st['skipped'][:10]}
+
+
 def check(run):
     run.rule = ('cases = states of the spec/LineProgram.tla writer: (header configuration x program of <= MaxLen instructions '
                 'over the opcode-kind x operand-class alphabet, closed by DW_LNE_end_sequence), header table variants, two units '
@@ -225,6 +314,7 @@ def check(run):
     plans = [('LineProgram_quick' if quick else 'LineProgram_thorough', None, None)]
     if not quick:
         plans.append(('LineProgram_len3', None, None))
+        plans.append(('LineProgram_sweep', None, None))
     plans.append(('LineProgram_sim', 400 if quick else 4000, 42))
     seen = set()
     by_mode = {}
@@ -233,6 +323,9 @@ def check(run):
     for cfg, sim, depth in plans:
         res = run.tlc('LineProgram', cfg, simulate=sim, depth=depth, workers=(1 if sim else None), timeout=3000,
                       env={'JAVA_TOOL_OPTIONS': '-Xss32m'})
+        if 'Error:' in res.stdout:
+            # TLC can report an evaluation error (e.g. a Java stack overflow) and still exit 0
+            raise core.MachineryError('TLC reported an error on %s\n%s' % (cfg, res.stdout[res.stdout.index('Error:'):][:1500]))
         for case in run.cases(res.out):
             key = core.digest([case['line'], case['info']])
             if key in seen:
@@ -251,6 +344,7 @@ def check(run):
                                     'rows': [[denote(r[0])] + r[1:] for r in u['rows'][:4]]})
             _replay(run, case, n)
     run.validated = run.evaluations
+    _corpus(run, quick)
     run.extra['cases_by_mode'] = by_mode
     run.extra['units_by_tag'] = by_tag
     run.extra['exhaustive'] = False
